@@ -85,7 +85,7 @@ def run_case(case):
         if r.violations:
             break
     shared = _shared_constrained(sch)
-    nontrivial = shared and yes > 0 and no > 0
+    nontrivial = (shared or case.get('templated')) and yes > 0 and no > 0
     r.key = text if nontrivial else None
     r.classes = ('shared-constrained' if shared else 'plain', f'yes:{"0" if not yes else "some"}', f'pairs:{min(len(pool), 99) // 10 * 10}+')
     return r
@@ -139,6 +139,11 @@ SUBCHECKS = {
                                note='redefinitions with identical name pattern but other signers, sibling rules sharing a prefix'),
     'schemas-typed-twins': SubCheck(run_case, strategy=lambda tier: _case('twins'), examples={'quick': 150, 'thorough': 4000},
                                     note='literals equal in value, different in component type'),
+    'schemas-templated': SubCheck(run_case, strategy=lambda tier: st.fixed_dictionaries({
+        'schema': G.templated_schema(), 'style': st.integers(0, 5), 'salt': st.integers(0, 96), 'moves': st.just([]),
+        'templated': st.just(True)}),
+        examples={'quick': 150, 'thorough': 3000}, note='one named pattern bound at different positions by two packet definitions with different signers; a '
+                          'multi-shape rule referred to two or three times by a signer rule'),
     'schemas-many-patterns': SubCheck(run_case, strategy=lambda tier: _case('many'), examples={'quick': 200, 'thorough': 6000},
                                       note='14 pattern names: pattern numbers reach two digits'),
 }
